@@ -34,13 +34,13 @@ def _inpkg():
     return m
 
 
-def generate(kind, builddir):
+def generate(kind, builddir, repo=REPO):
     rep = {}
     for k, v in list(_bridge().items()) + list(_inpkg().items()):
-        rep[os.path.join(REPO, k)] = v
+        rep[os.path.join(repo, k)] = v
     if kind == 'shim':
         import shimgen
-        rep.update(shimgen.generate(builddir))
+        rep.update(shimgen.generate(builddir, repo))
     path = os.path.join(builddir, 'overlay-%s.json' % kind)
     tmp = path + '.%d.tmp' % os.getpid()
     json.dump({'Replace': rep}, open(tmp, 'w'), indent=1)
